@@ -485,9 +485,10 @@ func init() {
 		}
 		var seconds []second
 		for _, sid := range []uint32{9, 10} {
-			for _, pm := range []string{"shadowsocks", "unknown", "Shadowsocks"} {
+			// the server also serves a method called "ss": names that merely contain it are not it
+			for _, pm := range []string{"shadowsocks", "unknown", "Shadowsocks", "ss", "ss\x00x", "ss\x00shadowsoc", "s", "sss"} {
 				w := "redirect"
-				if pm == "shadowsocks" {
+				if pm == "shadowsocks" || pm == "ss" {
 					w = "answer"
 				}
 				seconds = append(seconds, second{fmt.Sprintf("sid=%d method=%q", sid, pm), 0, sid, pm, true, 0, w})
@@ -508,6 +509,7 @@ func init() {
 				}
 				r := newE2ERig(mgr, bp, nil)
 				r.sta.WorldState = common.WorldState{Rand: vWorld().Rand, Now: rtime.Now}
+				r.sta.ProxyBook["ss"] = tcpAddr{"proxy:8388"}
 				if transport == "cdn" {
 					r.startCDN(2)
 				}
